@@ -218,7 +218,6 @@ Proof.
   apply same_name_false in N.
   destruct (terminating_masks tf pools blocks T p ND IT Ip) as [A1 A2]; auto.
   - destruct M as [M|M]; auto.
-  - rewrite A1, A2. reflexivity.
 Qed.
 
 Lemma model_ok_finalizers : forall tf pools blocks, NoDup (map p_name pools) ->
